@@ -253,3 +253,17 @@ func threeLists() {
 	bar(3)
 	qux(4, 5, 6)
 }
+
+func manyLists(x func(int, func(int))) {
+	a0(1)
+	a1(1, 2)
+	a2()
+	a3(3)
+	x = func(n int, f func(int)) {}
+	a4(4)
+	a5(5, 6)
+	a6()
+	a7(7)
+	a8(8)
+	old()
+}
